@@ -40,6 +40,7 @@ class Cell:
     setup: str = ""  # module level helper code
     local: str = ""  # code placed in architecture() before the context
     note: str = ""
+    range_check: bool = False  # the unwrapped spec value must also lie inside the output type's range
 
 
 def design_source(cells: list[Cell], ctx: str, ename="Cells"):
@@ -172,6 +173,9 @@ def _check_group(rep, grp, ctx, text, src, lib, results, timeout_ms):
             neq = D.b_xor(D.bit_to_bool(got), wv)
         else:
             neq = D.b_not(D.v_eq(got, wv, w))
+        if c.range_check and kind == "bits" and not isinstance(want, int):
+            lo, hi = c.out.lo(), c.out.hi()
+            neq = D.b_or(neq, z3.Or(want < lo, want > hi))
         asm = [c.assume(Z3P, *args)] if c.assume else []
         # simulation errors of this cell's logic are assumed away only through 'assume'
         r, model = check_sat(rep.stats, sim.constraints + asm + [neq], timeout_ms)
@@ -213,7 +217,8 @@ def _replay(rep, c, i, grp, ctx, lib, vals, text, src):
     want = c.spec(PyP, *args)
     kind, wv = _spec_bits(PyP, want, c.out)
     wv = int(wv) if kind == "bits" else (1 if wv else 0)
-    if got == wv:
+    out_of_range = c.range_check and kind == "bits" and not (c.out.lo() <= want <= c.out.hi())
+    if got == wv and not out_of_range:
         return CellResult(c, "error", f"counterexample {vals} does not reproduce concretely (got {got})")
     return CellResult(c, "mismatch", {
         "inputs_bits": vals, "inputs_math": args, "got_bits": got, "want_bits": wv,
